@@ -607,6 +607,47 @@ func runC03(c *Ctx) error {
 			}
 		}
 	}
+	// period spreads: buffers sized from one period and lags caused by another only matter when the periods are far apart
+	for _, typeKey := range typeKeys("indicator") {
+		t := genTypes[typeKey]
+		base := c.randSpec(typeKey, 7, 0, false)
+		v0, _, err := base.Build()
+		if err != nil {
+			return err
+		}
+		paths := periodPaths(v0, "", 0)
+		if len(paths) < 2 {
+			continue
+		}
+		sortStrings(paths)
+		for r := 0; r < 4*reps; r++ {
+			sp := c.randSpec(typeKey, 7, 0, false)
+			sp.Sets = nil
+			for _, pth := range paths {
+				x := []int64{1, 2, 3, 5, 8, 13, 21}[c.Rng.IntN(7)]
+				sp.Sets = append(sp.Sets, SpecSet{Path: pth, Int: &x})
+			}
+			if c.Rng.IntN(2) == 0 {
+				tieSets(&sp, paths)
+			}
+			inst, _, err := sp.Build()
+			if err != nil {
+				continue
+			}
+			idle := goIdle(inst)
+			if idle < 0 {
+				idle = 40
+			}
+			n := 2*idle + 30 + c.Rng.IntN(20)
+			bars, _ := c.randBars(n)
+			g1, _ := c.randSeries(n)
+			g2, _ := c.randSeries(n)
+			v := c.randVariant()
+			v.InCap = []int{0, 0, 1}[c.Rng.IntN(3)]
+			c.Count("period-spread runs")
+			c.c03Indicator(typeKey, sp, inputsFor(t.InNames, bars, [][]float64{g1, g2}), v)
+		}
+	}
 	for _, typeKey := range typeKeys("strategy") {
 		for r := 0; r < 2*reps; r++ {
 			sp := c.randSpec(typeKey, 7, 0, r%2 == 1)
